@@ -4,6 +4,7 @@ pub mod chainlib;
 pub mod common;
 pub mod conv;
 pub mod engine;
+pub mod fuzzmap;
 pub mod gen;
 pub mod props;
 pub mod refmodel;
